@@ -452,6 +452,41 @@ from .speclib import set_function
 set_function("conv", dict(g="Graph", F="Bag[Filter]"), "f", "Filter", "conv_member(g, F, f)")
 
 
+# ---------------------------------------------------------------- the three graph QUESTIONS (Boolean) and the verdict in terms of them
+REG.define("Q_edge", dict(g="Graph", s="Filter", o="Filter"), "exists(Dep, lambda d: deps_rel_d(g, s, o, d))")
+REG.define("Q_else_f", dict(g="Graph", s="Filter", O="Bag[Filter]"), "exists(Dep, lambda d: other_rel_d(g, s, O, d))")
+REG.define("Q_else_r", dict(g="Graph", S="Bag[Filter]", o="Filter"), "exists(Dep, lambda d: other_rev_rel_d(g, S, o, d))")
+_EP = dict(g="Graph", S="Bag[Filter]", O="Bag[Filter]", subj="Bool", objs="Bag[Filter]")
+REG.lemma("E_realised", params=_EP, requires=[],
+          ensures=["exists(Dep, lambda x: G_realised_b(g, S, O, subj, x)) == exists(Filter, Filter, lambda s, o: (s in S) and (o in O) and Q_edge(g, s, o))"], properties=["C01", "C12"])
+REG.lemma("E_abstract", params=_EP, requires=[],
+          ensures=["exists(Dep, lambda x: G_abstract_b(g, S, O, subj, x)) == exists(Filter, Filter, lambda s, o: (s in S) and (o in O) and not Q_edge(g, s, o))"], properties=["C01", "C12"])
+REG.lemma("E_or_f", params=_EP, requires=[],
+          ensures=["exists(Dep, lambda x: G_or_f(g, S, O, x)) == exists(Filter, lambda s: (s in S) and Q_else_f(g, s, O))"], properties=["C01", "C12"])
+REG.lemma("E_or_r", params=_EP, requires=[],
+          ensures=["exists(Dep, lambda x: G_or_r(g, S, O, x)) == exists(Filter, lambda o: (o in O) and Q_else_r(g, S, o))"], properties=["C01", "C12"])
+REG.lemma("E_om_f", params=_EP, requires=[],
+          ensures=["exists(Dep, lambda x: G_om_f(g, S, O, objs, x)) == (nonempty(objs) and exists(Filter, lambda s: (s in S) and not Q_else_f(g, s, O)))"], properties=["C01", "C12"])
+REG.lemma("E_om_r", params=_EP, requires=[],
+          ensures=["exists(Dep, lambda x: G_om_r(g, S, O, objs, x)) == (nonempty(objs) and exists(Filter, lambda o: (o in O) and not Q_else_r(g, S, o)))"], properties=["C01", "C12"])
+# S/O: importers/importees, objs: objects as specified by the user, subj: importer is the rule subject
+REG.macro("some_edge", ["g", "S", "O"], "exists(Filter, Filter, lambda s, o: (s in S) and (o in O) and Q_edge(g, s, o))")
+REG.macro("some_missing_edge", ["g", "S", "O"], "exists(Filter, Filter, lambda s, o: (s in S) and (o in O) and not Q_edge(g, s, o))")
+REG.macro("some_else", ["g", "S", "O", "subj"], "exists(Filter, lambda s: (s in S) and Q_else_f(g, s, O)) if subj else exists(Filter, lambda o: (o in O) and Q_else_r(g, S, o))")
+REG.macro("some_missing_else", ["g", "S", "O", "subj", "objs"],
+          "nonempty(objs) and (exists(Filter, lambda s: (s in S) and not Q_else_f(g, s, O)) if subj else exists(Filter, lambda o: (o in O) and not Q_else_r(g, S, o)))")
+REG.macro("viol_Q", ["g", "u", "b"],
+          "(b.should_not and (not b.behavior_exception) and some_edge(g, u._importers, u._importees)) or "
+          "(b.should and (not b.behavior_exception) and some_missing_edge(g, u._importers, u._importees)) or "
+          "(b.should_only and (not b.behavior_exception) and (some_missing_edge(g, u._importers, u._importees) or some_else(g, u._importers, u._importees, u._importer_specified_as_rule_subject))) or "
+          "(b.should and b.behavior_exception and some_missing_else(g, u._importers, u._importees, u._importer_specified_as_rule_subject, u._importees_as_specified_by_user)) or "
+          "(b.should_only and b.behavior_exception and (some_missing_else(g, u._importers, u._importees, u._importer_specified_as_rule_subject, u._importees_as_specified_by_user) or some_edge(g, u._importers, u._importees))) or "
+          "(b.should_not and b.behavior_exception and some_else(g, u._importers, u._importees, u._importer_specified_as_rule_subject))")
+_QOPQ = ["Q_edge", "Q_else_f", "Q_else_r"]
+_UMR = "umr_of(evaluable._graph, self._module_requirement)"
+_E_USES = [f"{L}(evaluable._graph, {_UMR}._importers, {_UMR}._importees, {_UMR}._importer_specified_as_rule_subject, {_UMR}._importees_as_specified_by_user)"
+           for L in ("E_realised", "E_abstract", "E_or_f", "E_or_r", "E_om_f", "E_om_r")]
+
 # the converted requirement as a function of (graph, requirement as given by the user)
 REG.macro("umr_of", ["g", "mr"],
           "new(ModuleRequirement, _importer_as_specified_by_user=conv(g, mr._importer_as_specified_by_user), "
@@ -476,5 +511,5 @@ REG.add(Contract("RuleMatcher.match", module=M_RM, kind="method",
                  requires=["WF(evaluable._graph)"],
                  raises=[("ImpossibleMatch", "mr_unmatched(evaluable._graph, self._module_requirement)"),
                          ("NetworkXError", "(not mr_unmatched(evaluable._graph, self._module_requirement)) and fv_raises(evaluable._graph, umr_of(evaluable._graph, self._module_requirement), self._behavior_requirement)"),
-                         ("AssertionError", "(not mr_unmatched(evaluable._graph, self._module_requirement)) and (not fv_raises(evaluable._graph, umr_of(evaluable._graph, self._module_requirement), self._behavior_requirement)) and verdict_viol(evaluable._graph, umr_of(evaluable._graph, self._module_requirement), self._behavior_requirement)")],
-                 opaque=_OPQ, properties=["C01", "C03", "C11", "C12", "C13", "C15"]))
+                         ("AssertionError", "(not mr_unmatched(evaluable._graph, self._module_requirement)) and (not fv_raises(evaluable._graph, umr_of(evaluable._graph, self._module_requirement), self._behavior_requirement)) and viol_Q(evaluable._graph, umr_of(evaluable._graph, self._module_requirement), self._behavior_requirement)")],
+                 opaque=_OPQ + _QOPQ, use_at_start=_E_USES, cases=["self._module_requirement._importer_specified_as_rule_subject"], properties=["C01", "C03", "C11", "C12", "C13", "C15"]))
